@@ -146,6 +146,7 @@ fn find_item(items: &[syn::Item], kind: &str, name: &str, desc: &str) -> syn::It
             ("enum", syn::Item::Enum(s)) => s.ident == name,
             ("const", syn::Item::Const(s)) => s.ident == name,
             ("type", syn::Item::Type(s)) => s.ident == name,
+            ("trait", syn::Item::Trait(s)) => s.ident == name,
             _ => false,
         };
         if ok {
@@ -340,6 +341,7 @@ fn emit_fn(d: &FnDirective, srcs: &mut Sources, out: &mut Out, stats: &mut norm:
         die("lost-anchor", &format!("{} has {} loops but {} are specified", desc, nloops, d.loops.len()));
     }
     let body = printer::pretty(block.to_token_stream(), indent);
+    let body = replace_iter_markers(&body);
     // splice loop clauses and entry statements (text level, markers are unique)
     let lines: Vec<&str> = body.lines().collect();
     let body_start = out.cur();
@@ -384,6 +386,38 @@ fn emit_fn(d: &FnDirective, srcs: &mut Sources, out: &mut Out, stats: &mut norm:
     let _ = body_start;
 }
 
+/// `__zx_iter!(E)` -> `iter: E` (balanced parentheses)
+fn replace_iter_markers(s: &str) -> String {
+    let pat = "__zx_iter!(";
+    let mut out = String::new();
+    let mut rest = s;
+    while let Some(pos) = rest.find(pat) {
+        out.push_str(&rest[..pos]);
+        let after = &rest[pos + pat.len()..];
+        let mut depth = 1usize;
+        let mut end = None;
+        for (i, c) in after.char_indices() {
+            match c {
+                '(' => depth += 1,
+                ')' => {
+                    depth -= 1;
+                    if depth == 0 {
+                        end = Some(i);
+                        break;
+                    }
+                }
+                _ => {}
+            }
+        }
+        let end = end.unwrap_or_else(|| die("internal", "unbalanced iter marker"));
+        out.push_str("iter: ");
+        out.push_str(&after[..end]);
+        rest = &after[end + 1..];
+    }
+    out.push_str(rest);
+    out
+}
+
 fn emit_item(src: &str, rest: &str, opts: &BTreeMap<String, String>, srcs: &mut Sources, out: &mut Out, stats: &mut norm::Stats, indent: usize) {
     let mut it = rest.split_whitespace();
     let kind = it.next().unwrap_or("");
@@ -402,6 +436,9 @@ fn emit_item(src: &str, rest: &str, opts: &BTreeMap<String, String>, srcs: &mut 
     norm::strip_item_attrs(&mut item, stats);
     let s = printer::pretty(item.to_token_stream(), indent);
     let start = out.cur();
+    if let Some(d) = opts.get("derive") {
+        out.push(&format!("{}#[derive({})]", "    ".repeat(indent), d.replace(',', ", ")));
+    }
     out.push(&s);
     out.regions.push(Region { start, end: out.line, kind: "item".into(), item: squash(&format!("{}{}", kind, name)), clause: String::new(), props: vec![] });
 }
@@ -420,22 +457,23 @@ fn main() {
     }
     let need = |k: &str| -> String { kv.get(k).cloned().unwrap_or_else(|| die("usage", &format!("missing --{}", k))) };
     let mut srcs = Sources { repo: PathBuf::from(need("repo")), exp: PathBuf::from(need("exp")), cache: BTreeMap::new() };
-    let template = std::fs::read_to_string(need("template")).unwrap_or_else(|e| die("template", &format!("{}", e)));
-    // includes: `//@ include FILE` relative to template dir
-    let tdir = PathBuf::from(need("template")).parent().unwrap().to_path_buf();
-    let mut lines: Vec<String> = Vec::new();
-    for l in template.lines() {
-        if let Some(inc) = l.trim().strip_prefix("//@ include ") {
-            let p = tdir.join(inc.trim());
-            let t = std::fs::read_to_string(&p).unwrap_or_else(|e| die("template", &format!("include {}: {}", p.display(), e)));
-            for il in t.lines() {
-                lines.push(il.to_string());
+    // includes: `//@ include FILE` relative to the including file's dir (recursive)
+    fn expand(path: &std::path::Path, lines: &mut Vec<String>, depth: usize) {
+        if depth > 8 {
+            die("template", "include depth");
+        }
+        let t = std::fs::read_to_string(path).unwrap_or_else(|e| die("template", &format!("{}: {}", path.display(), e)));
+        let dir = path.parent().unwrap().to_path_buf();
+        for l in t.lines() {
+            if let Some(inc) = l.trim().strip_prefix("//@ include ") {
+                expand(&dir.join(inc.trim()), lines, depth + 1);
+            } else {
+                lines.push(l.to_string());
             }
-        } else {
-            lines.push(l.to_string());
         }
     }
-
+    let mut lines: Vec<String> = Vec::new();
+    expand(&PathBuf::from(need("template")), &mut lines, 0);
     let mut out = Out { text: String::new(), line: 0, regions: Vec::new() };
     let mut stats = norm::Stats::default();
     let mut cur_fn: Option<(FnDirective, usize)> = None;
